@@ -17,7 +17,7 @@ RULE = ("Hypothesis generates lattice models, beta log-uniform in [1e-3,1e3], an
 ASSUMPTIONS = ["numpy eigh / exp", "tolerance (1e-10 + 4e-13*beta*scale)*|O|max: eigenvalues carry rounding of order 1e-15*scale which enters the weights multiplied by beta",
                "models with two levels 1e-10..1e-6 apart are kept (weights are smooth in E)"]
 CONFIG = {
-    "quick": {"flavours": ["real", "complex"], "shards": 8, "examples": 150, "min_nontrivial": 40, "budget_s": 100},
+    "quick": {"flavours": ["real", "complex"], "shards": 8, "examples": 800, "min_nontrivial": 40, "budget_s": 120},
     "thorough": {"flavours": ["real", "complex"], "shards": 16, "examples": 2500, "min_nontrivial": 800, "budget_s": 3000},
 }
 REQUIRED_CLASSES = {"quick": ["overflow-regime", "offdiag-nonzero", "offset"], "thorough": ["overflow-regime", "offdiag-nonzero", "offset", "complex"]}
